@@ -108,3 +108,17 @@ func (fr *Frame) extMapLenEmpty(mt *types.Map, m, l string, st *State) {
 	fc.assume("true", implies(and(not(eq(m, nilPtr)), eq(l, "0")),
 		fmt.Sprintf("(forall ((vk %s)) (! (not (select %s vk)) :pattern ((select %s vk))))", ks, has, has)))
 }
+
+// `hint after <callee> E`: E may name the results of that call as callresult0, callresult1, ... and (last result, if an error) callerr.
+// (The source-level variables the results are assigned to are not yet updated at the hint point: `err` there still denotes the previous value.)
+var hintCallRes = map[*Frame][]SV{}
+
+func bindHintCallResults(fr *Frame, env *SpecEnv) {
+	res := hintCallRes[fr]
+	for i, r := range res {
+		env.vars[fmt.Sprintf("callresult%d", i)] = r
+		if i == len(res)-1 && r.typ != nil && isErrorType(r.typ) {
+			env.vars["callerr"] = r
+		}
+	}
+}
